@@ -172,6 +172,11 @@ pub fn generate(rng: &mut Rng, plan: &mut Plan, _index: u64) {
         plan.knobs.faults.eintr = Some((1 + rng.below(4) as u32, 1 + rng.below(3) as u32, mask));
         plan.knobs.batch = "faulty".into();
     }
+    // a parent that runs with some standard descriptors closed
+    if rng.chance(1, 8) {
+        plan.parent.closed_std = 1 + rng.below(7) as u8;
+        plan.parent.files_low = rng.chance(1, 2);
+    }
     plan.body = Body::Drop(d);
 }
 
